@@ -5,6 +5,9 @@
    pyxel/observation/observation*.py  one run_pipeline per run  -> [observation_prog], [observation_dask_prog]
    pyxel/calibration/*_datatree.py    one run_pipeline per fitness evaluation -> [calibration_prog]
    pyxel/models/**                    functions with a `seed` parameter -> [model_row], [model_prog]
+   pyxel/calibration/archipelago_datatree.py  _build (islands pushed in which order) -> [islands]
+   every way a seed reaches a run (constructor, YAML builder, setter, override) -> [xfer], [seed_through]
+   iteration over hash-ordered collections inside seeded code -> [Unord] (order chosen by the process)
    The generator is abstract: a type of states, a seeding function and a transition function per kind
    of draw.  Nothing else is assumed about it.  No proofs in this file. *)
 From Coq Require Import ZArith List Bool String.
@@ -43,7 +46,11 @@ Inductive prog :=
 | Seq (p q : prog)
 | Seeded (s : option Z) (p : prog)
 | Raise
-| BareSeed (s : Z).
+| BareSeed (s : Z)
+| Unord (site : Z) (a b : prog).
+(* [Unord i a b]: the two parts run in an order the PROCESS chooses (iteration over a set / a
+   dict-keys set operation: CPython's string hashing is randomised per interpreter, PYTHONHASHSEED);
+   within one process the order is stable. *)
 
 Fixpoint seq_all (ps : list prog) : prog :=
   match ps with [] => Skip | p :: r => Seq p (seq_all r) end.
@@ -57,6 +64,7 @@ Section Rng.
   Variable seed_gen : Z -> gen.              (* np.random.seed(s) *)
   Variable next : Z -> gen -> gen * val.     (* one draw of kind k *)
   Variable cfg : srs_cfg.                    (* set_random_seed as coded *)
+  Variable swap : Z -> bool.                 (* this PROCESS: does hash-ordered site i come out swapped *)
 
   Inductive event := EvDraw (v : val) | EvState (g : gen).
 
@@ -80,6 +88,19 @@ Section Rng.
         (if restore then saved else g1, t, o)
     | Raise => (g, [], Raised)
     | BareSeed s => (seed_gen s, [], Done)
+    | Unord i a b =>
+        if swap i then
+          let '(g1, t1, o1) := exec b g in
+          match o1 with
+          | Raised => (g1, t1, Raised)
+          | Done => let '(g2, t2, o2) := exec a g1 in (g2, t1 ++ t2, o2)
+          end
+        else
+          let '(g1, t1, o1) := exec a g in
+          match o1 with
+          | Raised => (g1, t1, Raised)
+          | Done => let '(g2, t2, o2) := exec b g1 in (g2, t1 ++ t2, o2)
+          end
     end.
 
   Definition gen_after (p : prog) (g : gen) : gen := fst (fst (exec p g)).
@@ -102,6 +123,16 @@ Fixpoint self_seeded (p : prog) : bool :=
   | Seq a b => self_seeded a && self_seeded b
   | Seeded (Some _) _ => true
   | Seeded None a => self_seeded a
+  | Unord _ a b => self_seeded a && self_seeded b
+  end.
+
+(* no part of the program runs in a process-chosen order *)
+Fixpoint hash_stable (p : prog) : bool :=
+  match p with
+  | Skip | Raise | Draw _ | Observe | BareSeed _ => true
+  | Seq a b => hash_stable a && hash_stable b
+  | Seeded _ a => hash_stable a
+  | Unord _ _ _ => false
   end.
 
 (* ------------------------------------------------------------------ mode plumbing *)
@@ -137,11 +168,39 @@ Definition mode_prog (m : mode) (fw : bool) (seed : option Z) (bodies : list pro
   | MCalibration => calibration_prog fw seed bodies (firstn 1 bodies)
   end.
 
-(* call-chain table: (mode, link, does the link pass the seed on) *)
-Definition link := (string * string * bool)%type.
+(* What one link of the chain does to the seed it is handed.  [XId]: passed on unchanged (every
+   seed, 0 included).  [XTruthy]: passed on only if it is truthy (`x if x else None`, `x or None`,
+   `if x:`) - the legal seed 0 becomes "no seed".  [XDrop]: not passed on. *)
+Inductive xfer := XId | XTruthy | XDrop.
+
+Definition apply_xfer (x : xfer) (s : option Z) : option Z :=
+  match x with
+  | XId => s
+  | XDrop => None
+  | XTruthy => match s with Some 0 => None | _ => s end
+  end.
+
+Definition xfer_is_id (x : xfer) : bool := match x with XId => true | _ => false end.
+
+(* call-chain table: (mode, entry, link, what the link does to the seed).  The entry says through
+   which door the seed came in ("ctor", "yaml", "setter", "override"); "" = the link is on the
+   path of every entry of the mode. *)
+Definition link := (string * string * string * xfer)%type.
+Definition link_mode (r : link) : string := fst (fst (fst r)).
+Definition link_entry (r : link) : string := snd (fst (fst r)).
+Definition link_xfer (r : link) : xfer := snd r.
+
+Definition on_path (m e : string) (r : link) : bool :=
+  String.eqb (link_mode r) m && (String.eqb (link_entry r) "" || String.eqb (link_entry r) e).
+
+(* the seed that arrives at set_random_seed when [s] is given to mode [m] through entry [e] *)
+Definition seed_through (tbl : list link) (m e : string) (s : option Z) : option Z :=
+  fold_left (fun acc r => apply_xfer (link_xfer r) acc) (filter (on_path m e) tbl) s.
+
+(* every link of the mode, whatever the entry, passes every seed on unchanged *)
 Definition forwards_of (tbl : list link) (m : string) : bool :=
-  let rows := filter (fun r => String.eqb (fst (fst r)) m) tbl in
-  negb (Nat.eqb (List.length rows) 0) && forallb (fun r => snd r) rows.
+  let rows := filter (fun r => String.eqb (link_mode r) m) tbl in
+  negb (Nat.eqb (List.length rows) 0) && forallb (fun r => xfer_is_id (link_xfer r)) rows.
 
 (* ------------------------------------------------------------------ model functions with a seed *)
 
@@ -150,22 +209,172 @@ Record model_row := {
   m_inside : Z;        (* draw sites (direct, or calls into helpers that draw) inside the bracket *)
   m_outside : Z;       (* ... lexically outside `with set_random_seed(seed)` *)
   m_bare_seed : Z;     (* np.random.seed / set_state calls in the function or its helpers *)
-  m_bracket_seed : bool  (* there is a bracket and it is given the function's own `seed` argument *) }.
+  m_bracket_seed : bool;  (* there is a bracket and it is given the function's own `seed` argument *)
+  m_unordered : Z;     (* iterations over a set / dict-keys set operation in the function or its helpers *)
+  m_seed_truthy : Z    (* truthiness tests on `seed` (`if seed`, `seed or ..`, `.. if seed else ..`) *) }.
 
 Definition bracketed (r : model_row) : bool :=
-  (m_outside r =? 0) && (m_bare_seed r =? 0) && m_bracket_seed r.
+  (m_outside r =? 0) && (m_bare_seed r =? 0) && m_bracket_seed r && (m_seed_truthy r =? 0).
+
+Definition order_stable (r : model_row) : bool := m_unordered r =? 0.
+
+(* the draws of the function's seeded block: one kind of draw, or - when the function iterates over a
+   hash-ordered collection - two kinds in an order the process chooses *)
+Definition inside_prog (r : model_row) (kind : Z) : prog :=
+  if 0 <? m_inside r
+  then (if 0 <? m_unordered r then Unord 0 (Draw (4 * kind)) (Draw (4 * kind + 2)) else Draw (4 * kind))
+  else Skip.
+
+(* the seed the function's bracket is given *)
+Definition bracket_seed (r : model_row) (seed : option Z) : option Z :=
+  if m_bracket_seed r
+  then (if 0 <? m_seed_truthy r then apply_xfer XTruthy seed else seed)
+  else None.
 
 (* the generator-relevant behaviour of one call of the model function *)
 Definition model_prog (r : model_row) (seed : option Z) (kind : Z) : prog :=
   Seq (if 0 <? m_bare_seed r then match seed with Some s => BareSeed s | None => Skip end else Skip)
-  (Seq (if 0 <? m_outside r then Draw (2 * kind + 1) else Skip)
-       (Seeded (if m_bracket_seed r then seed else None)
-               (if 0 <? m_inside r then Draw (2 * kind) else Skip))).
+  (Seq (if 0 <? m_outside r then Draw (4 * kind + 1) else Skip)
+       (Seeded (bracket_seed r seed) (inside_prog r kind))).
 
 (* np.random.seed / set_state call sites anywhere in pyxel/ outside util/randomize.py *)
 Definition seed_site := (string * Z)%type.   (* qualified function, number of calls *)
 
 Definition string_in (s : string) (l : list string) : bool := existsb (String.eqb s) l.
+
+(* ------------------------------------------------------------------ calibration: islands and their seeds *)
+
+(* ArchipelagoDataTree._build: island tasks 0..n-1 are submitted with seeds[0..n-1]; they FINISH in
+   some order (a list of task indices, decided by thread timing).  The archipelago is filled by
+   iterating either over the results in submission order (builtin map, executor.map, a list of
+   futures read in order) or over the results as they complete (as_completed). *)
+Inductive build_kind := BMap | BAsCompleted.
+
+Definition finished (seeds : list Z) (order : list nat) : list (nat * Z) :=
+  map (fun i => (i, nth i seeds (-1))) order.
+
+Fixpoint lookup_task (i : nat) (l : list (nat * Z)) : option Z :=
+  match l with
+  | [] => None
+  | (j, s) :: r => if Nat.eqb i j then Some s else lookup_task i r
+  end.
+
+(* seed of island 0, 1, ... of the archipelago *)
+Definition islands (k : build_kind) (seeds : list Z) (order : list nat) : list Z :=
+  match k with
+  | BMap => map (fun i => match lookup_task i (finished seeds order) with Some s => s | None => -1 end)
+                (seq 0 (List.length seeds))
+  | BAsCompleted => map snd (finished seeds order)
+  end.
+
+Definition build_row := (string * build_kind)%type.   (* branch of _build ("parallel", "sequential"), how it iterates *)
+Definition build_of (tbl : list build_row) (branch : string) : build_kind :=
+  match filter (fun r => String.eqb (fst r) branch) tbl with
+  | (_, k) :: _ => k
+  | [] => BAsCompleted      (* unknown branch: nothing is promised *)
+  end.
+Definition build_is_map (k : build_kind) : bool := match k with BMap => true | _ => false end.
+
+Fixpoint zseq (n : nat) (from : Z) : list Z :=
+  match n with O => [] | S n' => from :: zseq n' (from + 1) end.
+
+(* which submitted task (0..n-1) sits at island position 0, 1, ... *)
+Definition island_assignment (tbl : list build_row) (branch : string) (n : nat) (order : list nat) : list Z :=
+  islands (build_of tbl branch) (zseq n 0) order.
+
+(* ------------------------------------------------------------------ brackets as seen from outside: one thread of control *)
+
+(* What an observer of np.random.seed / np.random.set_state sees: thread t enters a bracket with seed s
+   (get_state; seed), thread t leaves one (set_state of what THAT thread's bracket saved). *)
+Inductive bstep := BEnter (t s : Z) | BExit (t : Z).
+
+(* does the program end by raising (independent of the generator: Raise is the only source) *)
+Fixpoint raises (p : prog) : bool :=
+  match p with
+  | Raise => true
+  | Seq a b => raises a || raises b
+  | Seeded _ a => raises a
+  | Unord _ a b => raises a || raises b
+  | _ => false
+  end.
+
+(* the bracket operations of a program run by ONE thread (thread 0), in program order *)
+Fixpoint btrace (p : prog) : list bstep :=
+  match p with
+  | Seq a b => if raises a then btrace a else btrace a ++ btrace b
+  | Seeded (Some s) a => BEnter 0 s :: btrace a ++ [BExit 0]
+  | Seeded None a => btrace a
+  | Unord _ a b => if raises a then btrace a else btrace a ++ btrace b
+  | _ => []
+  end.
+
+(* LIFO discipline over ALL threads: every exit is by the thread that entered last.  This is what
+   "one thread of control" means for the shared generator; any interleaving of two threads' brackets
+   that is not properly nested breaks it. *)
+Fixpoint lifo_run (tr : list bstep) (stack : list Z) : option (list Z) :=
+  match tr with
+  | [] => Some stack
+  | BEnter t _ :: r => lifo_run r (t :: stack)
+  | BExit t :: r => match stack with
+                    | t' :: st => if t =? t' then lifo_run r st else None
+                    | [] => None
+                    end
+  end.
+Definition lifo (tr : list bstep) : bool :=
+  match lifo_run tr [] with Some [] => true | _ => false end.
+
+Section Brackets.
+  Variable gen : Type.
+  Variable seed_gen : Z -> gen.
+
+  (* each thread's bracket keeps its own saved state (a local variable of its generator frame): on exit
+     thread t restores what ITS most recent open bracket saved, wherever that sits among the others *)
+  Fixpoint take_saved (t : Z) (saved : list (Z * gen)) : option (gen * list (Z * gen)) :=
+    match saved with
+    | [] => None
+    | (t', g) :: r => if t =? t' then Some (g, r)
+                      else match take_saved t r with
+                           | Some (g', r') => Some (g', (t', g) :: r')
+                           | None => None
+                           end
+    end.
+
+  Fixpoint run_steps (tr : list bstep) (g : gen) (saved : list (Z * gen)) : gen * list (Z * gen) :=
+    match tr with
+    | [] => (g, saved)
+    | BEnter t s :: r => run_steps r (seed_gen s) ((t, g) :: saved)
+    | BExit t :: r => match take_saved t saved with
+                      | Some (g', saved') => run_steps r g' saved'
+                      | None => run_steps r g saved
+                      end
+    end.
+End Brackets.
+
+(* traces compared without thread names *)
+Definition bkind (b : bstep) : Z * Z := match b with BEnter _ s => (1, s) | BExit _ => (0, 0) end.
+Definition bkind_eqb (a b : Z * Z) : bool := (fst a =? fst b) && (snd a =? snd b).
+Fixpoint bkinds_eqb (a b : list (Z * Z)) : bool :=
+  match a, b with
+  | [], [] => true
+  | x :: a', y :: b' => bkind_eqb x y && bkinds_eqb a' b'
+  | _, _ => false
+  end.
+
+(* top-level blocks of a trace (a block = one outermost bracket with everything inside it) *)
+Fixpoint blocks_aux (tr : list (Z * Z)) (depth : Z) (cur : list (Z * Z)) : list (list (Z * Z)) :=
+  match tr with
+  | [] => match cur with [] => [] | _ => [rev cur] end
+  | x :: r =>
+      let d := if fst x =? 1 then depth + 1 else depth - 1 in
+      if d =? 0 then rev (x :: cur) :: blocks_aux r 0 [] else blocks_aux r d (x :: cur)
+  end.
+(* A calibration evaluates the same pipeline an implementation-defined number of times, and dask decides
+   itself in which order it runs the parameter sets of an observation: such traces are compared as the SET
+   of their top-level blocks. *)
+Definition same_blocks (a b : list (Z * Z)) : bool :=
+  let ba := blocks_aux a 0 [] in
+  let bb := blocks_aux b 0 [] in
+  forallb (fun x => existsb (bkinds_eqb x) bb) ba && forallb (fun x => existsb (bkinds_eqb x) ba) bb.
 
 (* ------------------------------------------------------------------ the free generator *)
 
@@ -195,12 +404,18 @@ Fixpoint zlist_eqb (a b : list Z) : bool :=
 
 Definition fgen_eqb (a b : fgen) : bool := origin_eqb (fst a) (fst b) && zlist_eqb (snd a) (snd b).
 
-Definition fexec (cfg : srs_cfg) := exec fgen fgen fseed fnext cfg.
+(* the free process: process number p swaps every hash-ordered site iff p is odd *)
+Definition fswap (p : Z) (site : Z) : bool := Z.odd p.
+Definition no_swap (site : Z) : bool := false.
+
+Definition fexec (cfg : srs_cfg) (p : Z) := exec fgen fgen fseed fnext cfg (fswap p).
 
 (* ------------------------------------------------------------------ sessions (correspondence) *)
 
-(* One process: a list of items executed one after the other at top level.  The harness looks at the
-   generator before and after every item and catches what the item raises. *)
+(* One session: a list of items executed one after the other at top level.  The harness looks at the
+   generator before and after every item and catches what the item raises.  Consecutive items may
+   run in different interpreter processes ([it_proc]; each with its own PYTHONHASHSEED): the
+   generator state is carried over by the harness, everything else about the process is fresh. *)
 Record item := {
   it_run : bool;          (* true: a run / model call whose result is recorded; false: the harness
                              moving the generator (np.random.seed(j), k draws) *)
@@ -209,9 +424,15 @@ Record item := {
   it_closed : bool;       (* no draw from the process-wide stream is expected (every stochastic
                              part has its own seed): the generator must be untouched *)
   it_cfg : Z;             (* equal ids = same configuration *)
+  it_proc : Z;            (* which interpreter process ran the item *)
+  it_aux : list Z;        (* calibration: task index at island position 0, 1, ... as the model of
+                             _build predicts it from the completion order the harness observed *)
   (* what the implementation did (ids = renumbering by first occurrence over the whole session) *)
   ob_pre : Z; ob_inner : list Z; ob_post : Z;
-  ob_draws : list Z; ob_res : Z; ob_raised : bool }.
+  ob_draws : list Z; ob_res : Z; ob_raised : bool;
+  ob_aux : list Z;        (* calibration: task index whose seed island 0, 1, ... actually has *)
+  it_collapse : bool;     (* compare the bracket trace as the set of its top-level blocks (calibration, dask) *)
+  ob_trace : list bstep   (* np.random.seed / set_state calls seen during the item: thread, seed *) }.
 
 Section Renumber.
   Context {A : Type} (eqb : A -> A -> bool).
@@ -237,43 +458,60 @@ Definition ev_draws (t : list (event fgen fgen)) : list fgen :=
    happen inside real model functions and are visible only through the run's result *)
 Definition probe_draw (v : fgen) : bool := match snd v with 0 :: _ => true | _ => false end.
 
+(* what identifies a run's result in the model: its configuration, the values it drew, whether it
+   raised, which task's seed each island got, and - only if some part of the program runs in a
+   process-chosen order - the process *)
+Definition mres := (Z * list fgen * bool * list Z * Z)%type.
+
 (* model observation of one item *)
-Record mobs := { mo_states : list fgen; mo_draws : list fgen; mo_res : option (Z * list fgen * bool) }.
+Record mobs := { mo_states : list fgen; mo_draws : list fgen; mo_res : option mres }.
 
 Fixpoint run_session (cfg : srs_cfg) (its : list item) (g : fgen) : list mobs :=
   match its with
   | [] => []
   | it :: r =>
-      let '(g', t, o) := fexec cfg (it_prog it) g in
+      let '(g', t, o) := fexec cfg (it_proc it) (it_prog it) g in
       let raised := outcome_eqb o Raised in
       {| mo_states := g :: ev_states t ++ [g'];
          mo_draws := filter probe_draw (ev_draws t);
          mo_res := if it_run it
-                   then Some (it_cfg it, (if raised then [] else ev_draws t), raised) else None |}
+                   then Some (it_cfg it, (if raised then [] else ev_draws t), raised, it_aux it,
+                              if hash_stable (it_prog it) then 0 else it_proc it + 1)
+                   else None |}
       :: run_session cfg r g'
   end.
 
-Definition res_eqb (a b : Z * list fgen * bool) : bool :=
-  let '(c1, d1, r1) := a in let '(c2, d2, r2) := b in
-  (c1 =? c2) && Bool.eqb r1 r2 &&
-  ((fix eq (x y : list fgen) := match x, y with
-                                | [], [] => true
-                                | u :: x', v :: y' => fgen_eqb u v && eq x' y'
-                                | _, _ => false end) d1 d2).
+Fixpoint fgens_eqb (x y : list fgen) : bool :=
+  match x, y with
+  | [], [] => true
+  | u :: x', v :: y' => fgen_eqb u v && fgens_eqb x' y'
+  | _, _ => false
+  end.
 
-(* canonical output of the model: state ids, draw ids, result ids (runs only), raised flags *)
-Definition model_out (cfg : srs_cfg) (its : list item) : list Z * list Z * list Z * list bool :=
+Definition res_eqb (a b : mres) : bool :=
+  let '(c1, d1, r1, a1, p1) := a in let '(c2, d2, r2, a2, p2) := b in
+  (c1 =? c2) && Bool.eqb r1 r2 && fgens_eqb d1 d2 && zlist_eqb a1 a2 && (p1 =? p2).
+
+Definition mres_raised (r : mres) : bool := let '(_, _, x, _, _) := r in x.
+
+(* canonical output of the model: state ids, draw ids, result ids (runs only), raised flags,
+   island assignments *)
+Definition outp := (list Z * list Z * list Z * list bool * list Z)%type.
+
+Definition model_out (cfg : srs_cfg) (its : list item) : outp :=
   let ms := run_session cfg its g_init in
   (renumber fgen_eqb (flat_map mo_states ms),
    renumber fgen_eqb (flat_map mo_draws ms),
    renumber res_eqb (flat_map (fun m => match mo_res m with Some r => [r] | None => [] end) ms),
-   flat_map (fun m => match mo_res m with Some (_, _, r) => [r] | None => [] end) ms).
+   flat_map (fun m => match mo_res m with Some r => [mres_raised r] | None => [] end) ms,
+   flat_map (fun it => if it_run it then it_aux it else []) its).
 
-Definition impl_out (its : list item) : list Z * list Z * list Z * list bool :=
+Definition impl_out (its : list item) : outp :=
   (flat_map (fun it => ob_pre it :: ob_inner it ++ [ob_post it]) its,
    flat_map ob_draws its,
    flat_map (fun it => if it_run it then [ob_res it] else []) its,
-   flat_map (fun it => if it_run it then [ob_raised it] else []) its).
+   flat_map (fun it => if it_run it then [ob_raised it] else []) its,
+   flat_map (fun it => if it_run it then ob_aux it else []) its).
 
 Fixpoint blist_eqb (a b : list bool) : bool :=
   match a, b with
@@ -282,12 +520,41 @@ Fixpoint blist_eqb (a b : list bool) : bool :=
   | _, _ => false
   end.
 
-Definition out_eqb (a b : list Z * list Z * list Z * list bool) : bool :=
-  let '(s1, d1, r1, x1) := a in let '(s2, d2, r2, x2) := b in
-  zlist_eqb s1 s2 && zlist_eqb d1 d2 && zlist_eqb r1 r2 && blist_eqb x1 x2.
+(* result ids: every equality the model forces must hold in the implementation.  The converse is not
+   demanded: a result is a coarse observable (a calibration's champion, integer counts), so two runs the
+   model keeps apart - unseeded runs from different states - may coincide by chance.  (Generator states
+   and drawn values are compared both ways: there a coincidence is a hash collision.) *)
+Fixpoint ids_refine (m i : list Z) : bool :=
+  match m, i with
+  | [], [] => true
+  | x :: m', y :: i' =>
+      (fix same (m2 i2 : list Z) : bool :=
+         match m2, i2 with
+         | [], [] => true
+         | u :: m3, v :: i3 => (if x =? u then y =? v else true) && same m3 i3
+         | _, _ => false
+         end) m' i' && ids_refine m' i'
+  | _, _ => false
+  end.
+
+Definition out_eqb (a b : outp) : bool :=
+  let '(s1, d1, r1, x1, a1) := a in let '(s2, d2, r2, x2, a2) := b in
+  zlist_eqb s1 s2 && zlist_eqb d1 d2 && ids_refine r1 r2 && blist_eqb x1 x2 && zlist_eqb a1 a2.
+
+(* the brackets the implementation really opened - with which seeds, in which order - are the ones the
+   model's program opens when one thread runs it *)
+Definition trace_matches (it : item) : bool :=
+  if it_run it then
+    let m := map bkind (btrace (it_prog it)) in
+    let o := map bkind (ob_trace it) in
+    if it_collapse it then same_blocks m o else bkinds_eqb m o
+  else true.
+
+(* hypothesis of the single-thread theorems, checked on what was observed *)
+Definition trace_lifo (it : item) : bool := lifo (ob_trace it).
 
 Definition case_mismatch (cfg : srs_cfg) (its : list item) : bool :=
-  negb (out_eqb (model_out cfg its) (impl_out its)).
+  negb (out_eqb (model_out cfg its) (impl_out its) && forallb trace_matches its).
 
 (* ---- the specification, judged on the implementation's observations only ---- *)
 
@@ -295,11 +562,14 @@ Definition case_mismatch (cfg : srs_cfg) (its : list item) : bool :=
 Definition spec_restored (it : item) : bool :=
   if it_run it && (it_seeded it || it_closed it) then ob_pre it =? ob_post it else true.
 
-(* reproducible: two seeded items of the same configuration agree on everything observable,
-   whatever state each started from *)
+(* reproducible: two seeded (or closed) items of the same configuration agree on everything
+   observable, whatever state each started from, whichever interpreter process (and hash seed) ran
+   them, through whichever door the seed came in, and whatever order the island tasks finished in *)
+Definition it_det (it : item) : bool := it_seeded it || it_closed it.
 Definition spec_repro_pair (a b : item) : bool :=
-  if it_run a && it_run b && it_seeded a && it_seeded b && (it_cfg a =? it_cfg b)
+  if it_run a && it_run b && it_det a && it_det b && (it_cfg a =? it_cfg b)
   then (ob_res a =? ob_res b) && Bool.eqb (ob_raised a) (ob_raised b) && zlist_eqb (ob_draws a) (ob_draws b)
+       && zlist_eqb (ob_aux a) (ob_aux b)
   else true.
 
 (* not made deterministic: two unseeded items of the same configuration started from different
@@ -323,3 +593,6 @@ Definition mismatches (cfg : srs_cfg) (cases : list (list item)) : list Z :=
   indices_where (case_mismatch cfg) cases 0.
 Definition violations (cases : list (list item)) : list Z :=
   indices_where (fun c => negb (spec_holds c)) cases 0.
+(* sessions in which some item's brackets were NOT used by one thread of control *)
+Definition interleaved (cases : list (list item)) : list Z :=
+  indices_where (fun c => negb (forallb trace_lifo c)) cases 0.
